@@ -5,6 +5,7 @@ import (
 	"errors"
 	"fmt"
 	"io"
+	"log"
 	"runtime"
 	"strings"
 	"sync"
@@ -68,6 +69,17 @@ func (r *scriptReader) Read(p []byte) (int, error) {
 		case strings.HasPrefix(s, "sleep:"):
 			time.Sleep(time.Duration(atoi(s[6:])) * time.Millisecond)
 		}
+	}
+}
+
+// withSystemLog gives every second case a system log (the applications run with one; the library's logging branches
+// must not change what is delivered).
+var systemLogToggle int
+
+func withSystemLog(cfg *jsonconfig.Config) {
+	systemLogToggle++
+	if systemLogToggle%2 == 0 {
+		cfg.SystemLog = log.New(io.Discard, "verif ", log.LstdFlags)
 	}
 }
 
@@ -236,6 +248,7 @@ func runEOFRetry(f []string, out *bufio.Writer) {
 		steps = nil
 	}
 	cfg := &jsonconfig.Config{TimeoutOnEOFMilliSeconds: uint(atoi(f[2])), WaitTimeOnEOFMilliseconds: uint(atoi(f[3]))}
+	withSystemLog(cfg)
 	ch := make(chan rtcm.Message)
 	fh := filehandler.New(ch, cfg)
 	type result struct {
